@@ -62,9 +62,10 @@ P["C03"] = dict(
 
 P["C04"] = dict(
     lean_targets=["JSight.Props.C04"],
-    obligations=ob("JSight.Props.C04", ("Props.C04.C04_example_valid", "checked schema => its example document validates (any literal rule semantics)")),
+    obligations=ob("JSight.Props.C04", ("Props.C04.C04_example_valid", "checked schema => its example document validates (any literal rule semantics)"),
+        ("Props.C04.C04_checked_iff", "with unique keys the checker's conditions hold exactly when the EXAMPLE validates: a violated rule anywhere makes them fail")),
     runs=[{"cmd": ["c04-check-example"]}],
-    partial="the converse (a violated rule makes Check fail at the value's position) is explored on the real code, not proved",
+    partial="on the model the checker's conditions are equivalent to 'the EXAMPLE validates' (theorem); that the real Check reports a violated rule at the value's position is explored on the real code, not proved",
     level_text="Proof (partial): if the checker's conditions hold on a plain-JSON schema (every literal passes the same literal validation on its own example, keys unique) then validating the example succeeds — theorem for every nesting and any literal-rule semantics. Tie/search on the real code: Check ok => Validate(example) ok on generated schemas with 16 rule kinds, and every single-rule corruption is rejected at the byte offset of the corrupted value.",
     level_note="Trusted: Lean kernel; the checker itself is represented by the predicate `checked` (what it establishes), validated by the exploration; K-C04-* known findings excluded by class.",
     technique="Lean 4 theorem relating Check and Validate on the model + property exploration on the real code")
@@ -73,7 +74,8 @@ P["C05"] = dict(
     lean_targets=["JSight.Props.C05"],
     obligations=ob("JSight.Props.C05",
         ("Props.C05.C05_check_iff_rfc", "for all byte strings: scanner-model check (strict) = RFC 8259 recogniser accepts"),
-        ("Props.C05.C05_trailing", "for all byte strings: check with trailing allowed = recogniser has read one complete value when it first cannot continue")),
+        ("Props.C05.C05_trailing", "for all byte strings: check with trailing allowed = recogniser has read one complete value when it first cannot continue"),
+        ("Props.C05.C05_grammar_accepted", "every text the RFC 8259 grammar generates (token grammar, any layout, any depth) is accepted")),
     runs=[{"cmd": ["json-tprod"]}, {"cmd": ["json-exh"]}, {"cmd": ["json-diff"]}],
     assumptions=["the RFC recogniser (150 lines) is the reading of 'is a JSON text'; validated against encoding/json.Valid on the exhaustive stream"],
     level_text="Proof: for every byte string the scanner model's Check (strict and trailing modes) equals an independently written RFC 8259 recogniser (simulation proof, unbounded length and depth). The model is tied to the code on every run by product-state exploration of (implementation state, model state) over all 256 next bytes, bounded-exhaustive comparison of Check with model, spec and encoding/json, and a mutation/generation differential.",
